@@ -43,7 +43,7 @@ fn root_within(ctx: &mut Ctx, what: &str, r: &Big, x: &Big, k: u32, beta: &Big) 
 }
 
 fn c13_sqrt(ctx: &mut Ctx) {
-    let c = ctx.weighted(&[12, 1, 1, 1]);
+    let c = ctx.weighted(&[12, 2, 1, 1]);
     let x = match c {
         0 => {
             let d = dd_closed(ctx, -900, 900, false);
@@ -57,7 +57,18 @@ fn c13_sqrt(ctx: &mut Ctx) {
             // perfect squares and neighbours
             ctx.label("perfect-square");
             let r = dd_exp(ctx, -400, 400, false);
-            let sq = Dd::of(r.tf() * r.tf());
+            let c = r.hi;
+            let sq = match ctx.below(5) {
+                0 => Dd::of(r.tf() * r.tf()),
+                1 => Dd::of(TwoFloat::new_mul(c, c)), // the exact square of an f64: two words
+                2 => Dd::of(TwoFloat::from(c) * TwoFloat::from(c)),
+                3 => Dd::new(c * c, 0.0),
+                _ => {
+                    let e = Dd::of(TwoFloat::new_mul(c, c));
+                    let p = Dd::new(e.hi, step(e.lo, ctx.range(-2, 2)));
+                    if p.valid() { p } else { e }
+                }
+            };
             if sq.valid() && sq.hi > 0.0 {
                 sq
             } else {
@@ -106,13 +117,24 @@ fn c13_sqrt(ctx: &mut Ctx) {
 }
 
 fn c13_cbrt(ctx: &mut Ctx) {
-    let c = ctx.weighted(&[12, 1, 1]);
+    let c = ctx.weighted(&[12, 2, 1]);
     let x = match c {
         0 => dd_closed(ctx, -900, 900, false),
         1 => {
             ctx.label("perfect-cube");
             let r = dd_exp(ctx, -290, 290, false);
-            let cu = Dd::of(r.tf() * r.tf() * r.tf());
+            // cubes (exact or up to one rounding) by every construction a caller might use: of a
+            // double-double root, of an f64 root through the operators, through new_mul with the
+            // rounded square on either side, as the correctly rounded exact cube, as the f64 product
+            let c = r.hi;
+            let cu = match ctx.below(6) {
+                0 => Dd::of(r.tf() * r.tf() * r.tf()),
+                1 => Dd::of(TwoFloat::from(c) * TwoFloat::from(c) * TwoFloat::from(c)),
+                2 => Dd::of(TwoFloat::new_mul(c * c, c)),
+                3 => Dd::of(TwoFloat::new_mul(c, c * c)),
+                4 => crate::p_conv::dd_from_big(&Big::from_f64(c).mul(&Big::from_f64(c)).mul(&Big::from_f64(c))),
+                _ => Dd::new(c * c * c, 0.0),
+            };
             if cu.valid() && cu.hi != 0.0 {
                 cu
             } else {
